@@ -140,3 +140,27 @@ Print Assumptions C09_int64.
 Print Assumptions C09_int64_small.
 Print Assumptions C09_int64_closed.
 Print Assumptions C09_int64_times_payload.
+
+(* ---- composition (session 5; Proofs/AddCompose.v): two shifts in the same direction are one shift by the sum - back
+   shifts for every list of cues with start <= end (removal and clamping included), forward shifts for cues on the
+   timeline; the zero shift is the identity there.  Shifts of opposite sign do not compose: the clamp loses the start
+   (computed witness). ---- *)
+From Astisub Require Import Proofs.AddCompose.
+Theorem C09_compose_back : forall d1 d2 l, d1 <= 0 -> d2 <= 0 -> Forall wf_item l ->
+  add_dur d2 (add_dur d1 l) = add_dur (d1 + d2) l.
+Proof. exact add_compose_back. Qed.
+Theorem C09_compose_forward : forall d1 d2 l, 0 <= d1 -> 0 <= d2 ->
+  Forall (fun x => 0 <= st x /\ st x <= en x /\ 0 < en x) l ->
+  add_dur d2 (add_dur d1 l) = add_dur (d1 + d2) l.
+Proof. exact add_compose_forward. Qed.
+Theorem C09_zero_shift : forall l, Forall (fun x => 0 <= st x /\ st x <= en x /\ 0 < en x) l -> add_dur 0 l = l.
+Proof. exact add_zero. Qed.
+Example C09_compose_mixed_differs :
+  let x := mkItem 1%N 2 10 [] None None false in
+  (0 <= st x /\ st x <= en x /\ 0 < en x) /\
+  map (fun y => (st y, en y)) (add_dur 5 (add_dur (-5) [x])) = [(5, 10)] /\
+  map (fun y => (st y, en y)) (add_dur (-5 + 5) [x]) = [(2, 10)].
+Proof. exact add_compose_mixed_differs. Qed.
+Print Assumptions C09_compose_back.
+Print Assumptions C09_compose_forward.
+Print Assumptions C09_zero_shift.
